@@ -9,6 +9,7 @@ import CookModel.Lemmas.CoverAudit
 import CookModel.Lemmas.FragInput
 import CookModel.Lemmas.RecipeText
 import CookModel.Lemmas.RecipeKeepComp
+import CookModel.Lemmas.RecipeSoft
 /-
   C05  No recipe content is silently dropped.
 
@@ -836,5 +837,23 @@ example : ((parseRecipe (α := Rat) rtToyEnv
     some (some "b".toList) := by decide +kernel
 example : rkConfigKey rtToyEnv "k".toList = false := by decide
 example : parseReference "../sauces/pesto".toList = some ⟨"pesto".toList, ["sauces".toList]⟩ := by decide
+
+/-- **A soft fragment holds only the characters of a line break (partial).**  `BlockParser::text`
+    (`buildText`) run over ANY tokens of the lexer (`ts ⊆ lexFrom cs o s`, any offsets, any order) marks as soft
+    only fragments whose text is `LF` or `CR LF`: the soft fragment is built in the `Newline` arm only, from
+    the text of that newline token, and the lexer spells a newline token `\n` or `\r\n`.  So a soft fragment
+    contains no letter or digit, and rendering it as one space (`Text::text`) loses none.
+    Partial: stated for `buildText`, the one function that builds soft fragments; NOT lifted to "every text
+    of every event of `PullParser`" (that every event text is `buildText` of lexed tokens needs a sweep over
+    the block parsers with the token spelling carried along; `RunIn` of `Lemmas/Spans.lean` does not carry
+    it), so the hypothesis `f.soft = false` of `C05_recipe_keeps_content_partial` is still there. -/
+theorem C05_soft_fragment_is_line_break_partial (cs : CharSpec) (o : Nat) (s : List Char) (off : Nat)
+    (ts : List Tok) (hsub : ∀ x ∈ ts, x ∈ lexFrom cs o s) :
+    ∀ f ∈ (buildText off ts).frags, f.soft = true → f.text = ['\n'] ∨ f.text = ['\r', '\n'] :=
+  rks_buildText_lexed cs o s off ts hsub
+
+/-! non-vacuity: the tokens of `a⏎b` give the fragments `a`, the soft line break, `b` -/
+example : (buildText 0 (lexFrom toyCharSpec 0 "a\r\nb".toList)).frags.map (fun f => (f.text, f.soft)) =
+    [(['a'], false), (['\r', '\n'], true), (['b'], false)] := by decide +kernel
 
 end Cook
